@@ -24,7 +24,7 @@ KINDS = irgen.C15_PASSES
 
 
 def gen_case(rng, max_depth, max_passes):
-    g = irgen.IRGen(rng, max_depth=max_depth)
+    g = irgen.IRGen(rng, max_depth=max_depth, features={"twins": 0.25})
     schemas = g.schemas()
     n = rng.choice([1, 1, 1, 2, 2, 3, max_passes])
     cur = schemas
